@@ -212,6 +212,8 @@ pub struct Report {
     pub capped: Option<String>,
     pub wall_s: f64,
     pub samples: Vec<(String, Vec<String>)>,
+    /// scenarios re-explored without lock elision
+    pub elision_redone: usize,
 }
 
 #[derive(Clone)]
@@ -300,6 +302,7 @@ struct Cell {
     open_items: AtomicUsize,
     execs: AtomicU64,
     capped: AtomicBool,
+    broken: AtomicBool,
     started: Mutex<Option<Instant>>,
 }
 
@@ -324,12 +327,48 @@ fn rss_kb() -> u64 {
 
 const OUTCOME_SET_CAP: usize = 4_000_000;
 
+/// Explore all scenarios; scenarios whose declared lock elision turned out to be unsound (a
+/// second task locked an elided mutex) are explored again with elision off.
 pub fn explore(
     scenarios: Vec<Scenario>,
     cfg: &Cfg,
     is_known: &(dyn Fn(&str) -> bool + Sync),
 ) -> Report {
     let t0 = Instant::now();
+    let (mut rep, broken) = explore_round(scenarios.clone(), cfg, is_known, t0);
+    if !broken.is_empty() && rep.fatal.is_none() {
+        let redo: Vec<Scenario> = scenarios
+            .into_iter()
+            .filter(|s| broken.iter().any(|b| b.0 == s.name && b.1 == s.params))
+            .map(|mut s| {
+                s.opts.elide.clear();
+                s
+            })
+            .collect();
+        rep.stats.retain(|st| !broken.iter().any(|b| b.0 == st.name && b.1 == st.params));
+        rep.violations.retain(|v| !broken.iter().any(|b| b.0 == v.scenario && b.1 == v.params));
+        let stopped = cfg.stop_on_unknown && rep.violations.iter().any(|v| !is_known(&v.sig));
+        if !stopped {
+            let (rep2, broken2) = explore_round(redo, cfg, is_known, t0);
+            assert!(broken2.is_empty());
+            rep.stats.extend(rep2.stats);
+            rep.violations.extend(rep2.violations);
+            rep.fatal = rep2.fatal;
+            rep.capped = rep.capped.or(rep2.capped);
+            rep.samples.extend(rep2.samples);
+        }
+        rep.elision_redone = broken.len();
+    }
+    rep.wall_s = t0.elapsed().as_secs_f64();
+    rep
+}
+
+fn explore_round(
+    scenarios: Vec<Scenario>,
+    cfg: &Cfg,
+    is_known: &(dyn Fn(&str) -> bool + Sync),
+    t0: Instant,
+) -> (Report, Vec<(String, String)>) {
     let mut cells = vec![];
     for s in scenarios {
         let lo = if cfg.iterate_bounds { 0 } else { s.bound };
@@ -346,6 +385,7 @@ pub fn explore(
                 open_items: AtomicUsize::new(1),
                 execs: AtomicU64::new(0),
                 capped: AtomicBool::new(false),
+                broken: AtomicBool::new(false),
                 started: Mutex::new(None),
                 scn: s.clone(),
             });
@@ -388,7 +428,24 @@ pub fn explore(
     let capped = shared.capped.lock().unwrap().clone();
     let violations = std::mem::take(&mut *shared.violations.lock().unwrap());
     let samples = std::mem::take(&mut *shared.samples.lock().unwrap());
-    Report { stats, violations, fatal, capped, wall_s: t0.elapsed().as_secs_f64(), samples }
+    let mut broken: Vec<(String, String)> = cells
+        .iter()
+        .filter(|c| c.broken.load(Ordering::SeqCst))
+        .map(|c| (c.scn.name.clone(), c.scn.params.clone()))
+        .collect();
+    broken.dedup();
+    (
+        Report {
+            stats,
+            violations,
+            fatal,
+            capped,
+            wall_s: t0.elapsed().as_secs_f64(),
+            samples,
+            elision_redone: 0,
+        },
+        broken,
+    )
 }
 
 fn worker(
@@ -421,6 +478,9 @@ fn worker(
             }
         };
         let cell = &cells[item.cell];
+        if cell.broken.load(Ordering::SeqCst) {
+            continue;
+        }
         {
             let mut st = cell.started.lock().unwrap();
             if st.is_none() {
@@ -434,11 +494,20 @@ fn worker(
         let mut n_since_check = 0u32;
         let mut finished = false;
         loop {
-            if sh.stop.load(Ordering::SeqCst) {
+            if sh.stop.load(Ordering::SeqCst) || cell.broken.load(Ordering::SeqCst) {
                 break;
             }
             dfs.begin();
             let r = run_once(&cell.scn, &mut dfs);
+            if r.elision_broken {
+                // every cell (bound) of this scenario has to be redone
+                for c in cells.iter() {
+                    if c.scn.name == cell.scn.name && c.scn.params == cell.scn.params {
+                        c.broken.store(true, Ordering::SeqCst);
+                    }
+                }
+                break;
+            }
             local.executions += 1;
             local.steps += r.steps;
             if !r.stuck.is_empty() {
